@@ -111,7 +111,7 @@ PAIRS_T = PAIRS_Q + [
 ]
 
 
-CASE_INSENSITIVE_KEYS = ('S1', 'S2', 'S3', 'S4', 'S6', 'S7', 'S8', 'S9', 'S10', 'S12')
+CASE_INSENSITIVE_KEYS = ('S1', 'S2', 'S3', 'S4', 'S6', 'S7', 'S8', 'S9', 'S10', 'S12', 'S14')
 
 
 def generated(tier):
@@ -119,7 +119,9 @@ def generated(tier):
     mechanical rewrite applied at every applicable position, and all of them composed"""
     from .. import corpus as C
     if tier == 'quick':
-        schemas, shapes = ['S2', 'S3', 'S7'], gen.shapes(3)
+        # S14: a '+' key next to optionally named section slots without required keys (a key text may equal a
+        # section name)
+        schemas, shapes = ['S2', 'S3', 'S7', 'S14'], gen.shapes(3)
     else:
         schemas, shapes = gen.THOROUGH, gen.shapes(3) + [s for s in gen.shapes(4) if len(s) == 4][::4]
     us = []
@@ -147,9 +149,20 @@ def generated(tier):
             for kind, rew, distinct in variants:
                 if tier == 'quick' and kind in ('ws', 'blank') and len(sh) == 3 and sid != 'S2':
                     continue
+                if tier == 'quick' and sid == 'S14' and (kind not in ('reorder', 'empty', 'case') or 'k' not in sh
+                                                         or not any(c in sh for c in 'ouef')):
+                    continue
                 us.append({'schema': sid, 'shape': sh, 'rewrite': kind, 'files': [['main.conf', lines]],
                            'files2': [['main.conf', rew]], 'distinct': distinct})
     return us
+
+
+DEEP_XML = """<schema>
+ <abstracttype name="an"/>
+ <sectiontype name="tr" implements="an"><multisection type="an" name="*" attribute="inner"/><key name="kr"/></sectiontype>
+ <multisection type="an" name="*" attribute="top"/>
+</schema>
+"""
 
 
 class C15(P.TextMixin, Harness):
@@ -187,10 +200,40 @@ class C15(P.TextMixin, Harness):
         return 170 if tier == 'quick' else 1500
 
     def units(self, tier):
-        return [{'schema': s, 'files': [['main.conf', a]], 'files2': [['main.conf', b]]}
-                for s, a, b in (PAIRS_Q if tier == 'quick' else PAIRS_T)] + generated(tier)
+        us = [{'schema': s, 'files': [['main.conf', a]], 'files2': [['main.conf', b]]}
+              for s, a, b in (PAIRS_Q if tier == 'quick' else PAIRS_T)] + generated(tier)
+        # deep nesting (a recursive section type): the nesting depth is a z3 integer, the innermost empty
+        # section is written '<tr/>' in one text and '<tr>' '</tr>' in the other; likewise a key line moved
+        # from the front of the innermost section to its end
+        for form in ('empty', 'indent'):
+            us.append({'deep': form, 'max_depth': 24 if tier == 'quick' else 48, 'files': [], 'files2': []})
+        return us
+
+    def _deep(self, unit, inp, rewritten):
+        d = inp['depth']
+        n = 1
+        while not (d == n):          # forks once per depth
+            n += 1
+        lines = []
+        for i in range(n):
+            lines.append('  ' * i + '<tr n%d>' % i)
+            lines.append('  ' * i + '  kr %d' % i)
+        pad = '  ' * n
+        if unit['deep'] == 'empty':
+            lines += ([pad + '<tr>', pad + '</tr>'] if rewritten else [pad + '<tr/>'])
+        else:
+            lines += ([pad + '<tr x>', '\t  kr ' + inp['val'] + '   ', '', '# c', pad + '</tr>'] if rewritten
+                      else ['<tr x>', 'kr ' + inp['val'], '</tr>'])
+        for i in reversed(range(n)):
+            lines.append('  ' * i + '</tr>')
+        return self._out(P.run_load(DEEP_XML, lines, url=P.MAIN))
 
     def inputs(self, eng, unit):
+        if 'deep' in unit:
+            d = eng.fresh_int('depth')
+            eng.assume(z3.And(d >= 1, d <= unit['max_depth']))
+            from ..core import SymInt
+            return {'depth': SymInt(d), 'val': self.sym_str(eng, 'val', 1, P.value_pred)}
         inp = self.text_inputs(eng, unit)
         for k, v in self.text_inputs(eng, unit, 'files2').items():
             if k not in inp:
@@ -208,11 +251,15 @@ class C15(P.TextMixin, Harness):
         return ('reject',)
 
     def observe(self, unit, inp):
+        if 'deep' in unit:
+            return self._deep(unit, inp, True)
         files = self.text_files(unit, inp, 'files2')
         return self._out(self.real_load(SCHEMAS[unit['schema']], files, common.all_concrete(inp),
                                         final_newline=unit.get('rewrite') != 'nonl'))
 
     def expect(self, unit, inp, real):
+        if 'deep' in unit:
+            return self._deep(unit, inp, False)
         files = self.text_files(unit, inp)
         return self._out(self.real_load(SCHEMAS[unit['schema']], files, common.all_concrete(inp)))
 
